@@ -63,6 +63,10 @@ func ReferenceReadFiles(format, mainPath string, files map[string][]byte) (out [
 		out, err = refReadRequirements(mainPath, files)
 		return out, true, err
 	}
+	if format == "gomod" {
+		out, err = refReadGoModFiles(mainPath, files)
+		return out, true, err
+	}
 	pairs, ok, err := ReferenceRead(format, files[mainPath])
 	for _, p := range pairs {
 		out = append(out, Located{Pair: p})
@@ -273,6 +277,96 @@ func refReadGoMod(content []byte) ([]Pair, error) {
 	}
 	if std != "" {
 		out = append(out, Pair{"stdlib", std})
+	}
+	return out, nil
+}
+
+// refGoDirective returns the version of the go directive and whether the file has a toolchain
+// directive (own scan of the lines; one-line directives only, which is how both are written).
+func refGoDirective(content []byte) (goVersion string, hasToolchain bool) {
+	for _, line := range strings.Split(string(content), "\n") {
+		toks := goModTokens(line)
+		if len(toks) == 2 && toks[0] == "go" {
+			goVersion = toks[1]
+		}
+		if len(toks) == 2 && toks[0] == "toolchain" {
+			hasToolchain = true
+		}
+	}
+	return goVersion, hasToolchain
+}
+
+// refReadGoModFiles reads a go.mod and, when the documentation of the gomod extractor says so,
+// the go.sum next to it. The documented rule (gomod.go, gosum.go): "At go 1.17 and above, the
+// go command adds an indirect requirement for each module that provides any package imported
+// (even indirectly)" - the go.mod is complete and is the only source; "Below 1.17 go.mod does
+// not contain indirect dependencies but they might be in go.sum, thus we look into it as
+// well": module versions of go.sum (its "<module> <version> h1:" lines; the
+// "<version>/go.mod" lines only verify go.mod files and list nothing) are reported too, a
+// module version listed by both files has both locations. A go.mod without go directive is
+// not given a go.sum by the generator (the documentation does not say what is read then), nor
+// is one with a go directive below 1.17 and a toolchain line.
+func refReadGoModFiles(mainPath string, files map[string][]byte) ([]Located, error) {
+	pairs, err := refReadGoMod(files[mainPath])
+	if err != nil {
+		return nil, err
+	}
+	var out []Located
+	idx := map[Pair]int{}
+	for _, p := range pairs {
+		idx[p] = len(out)
+		out = append(out, Located{p, []string{mainPath}})
+	}
+	sumPath := strings.TrimSuffix(mainPath, "go.mod") + "go.sum"
+	sum, hasSum := files[sumPath]
+	goV, hasTC := refGoDirective(files[mainPath])
+	if !hasSum || goV == "" {
+		return out, nil
+	}
+	// numeric comparison of the language version (major.minor) with 1.17
+	var nums []int
+	for _, part := range strings.Split(goV, ".") {
+		n := 0
+		for _, ch := range part {
+			if ch < '0' || ch > '9' {
+				return nil, fmt.Errorf("go directive %q", goV)
+			}
+			n = n*10 + int(ch-'0')
+		}
+		nums = append(nums, n)
+	}
+	for len(nums) < 2 {
+		nums = append(nums, 0)
+	}
+	atLeast117 := nums[0] > 1 || (nums[0] == 1 && nums[1] >= 17)
+	if atLeast117 {
+		return out, nil
+	}
+	if hasTC {
+		return nil, fmt.Errorf("go %s with a toolchain line and a go.sum: not decided by the documentation", goV)
+	}
+	seen := map[Pair]bool{}
+	for _, line := range strings.Split(string(sum), "\n") {
+		fields := strings.Fields(line)
+		if len(fields) == 0 {
+			continue
+		}
+		if len(fields) != 3 {
+			return nil, fmt.Errorf("go.sum line %q", line)
+		}
+		if strings.HasSuffix(fields[1], "/go.mod") {
+			continue
+		}
+		p := Pair{fields[0], strings.TrimPrefix(fields[1], "v")}
+		if seen[p] {
+			continue
+		}
+		seen[p] = true
+		if i, ok := idx[p]; ok {
+			out[i].Locations = append(out[i].Locations, sumPath)
+		} else {
+			out = append(out, Located{p, []string{sumPath}})
+		}
 	}
 	return out, nil
 }
